@@ -111,6 +111,16 @@ class Serializable(object):  # pylint: disable=too-few-public-methods
         return result
 
     @staticmethod
+    def _get_ordered_items(list_value):
+        if not isinstance(list_value, (frozenset, set)):
+            return list_value
+
+        if all(isinstance(item, enum.Enum) for item in list_value):
+            return sorted(list_value, key=lambda item: item.name)
+
+        return sorted(list_value)
+
+    @staticmethod
     def _json_result(obj):
         if isinstance(obj, enum.Enum):
             if isinstance(obj.value, CryptoDataParamsBase):
@@ -143,7 +153,10 @@ class Serializable(object):  # pylint: disable=too-few-public-methods
         elif hasattr(obj, '__dict__'):
             result = Serializable._json_traverse(obj.__dict__, result_func)
         elif isinstance(obj, (list, tuple, frozenset, set)):
-            result = [Serializable._json_traverse(item, result_func) for item in obj]
+            result = [
+                Serializable._json_traverse(item, result_func)
+                for item in Serializable._get_ordered_items(obj)
+            ]
         else:
             result = result_func(obj)
 
@@ -209,7 +222,7 @@ class Serializable(object):  # pylint: disable=too-few-public-methods
         indent = Serializable._markdown_indent_from_level(level)
 
         result = ''
-        for index, item in enumerate(obj):
+        for index, item in enumerate(Serializable._get_ordered_items(obj)):
             multiline, markdnow_result = cls._markdown_result(item, level + 1)
             result += '{indent}{index}.{separator}{value}{newline}'.format(
                 indent=indent,
